@@ -345,6 +345,39 @@ def merge_details(P, R, rule='C15.MPT.6'):
         R.ob(rule, bool(at_exit) and all(fresh for arm, fresh in at_exit if arm), al[0], 'on the plain-text arm the remembered text is re-pointed at the node\'s current text on every path to the return', key='alias-refresh')
     R.floor(rule, 5, 'flag raises, parent link, pair comparisons, alias refresh')
 
+def alias_established(P, R, rule='C15.MPT.7'):
+    """The change test of a plain string compares the new text with the text the node REMEMBERS (parsed.p_string): so
+    wherever a string node is given a text, the remembered text is brought in line before the function returns - by
+    the refresh function, or by a store of its own.  A node that starts life with a text but no remembered text looks
+    "changed" on the first identical reload, and its consumer is notified for nothing."""
+    unit = P.need_fn('conf_read').unit
+    refresh = 'conf_parse_string_value'
+    n = 0
+    for f in P.unit_fns(unit):
+        if f.name == refresh:
+            continue
+        for s in f.stores():
+            ev = s.ev
+            lhs = ev.get('lhs') or {}
+            if not (ev['k'] == 'store' and ev.get('op') == '=' and lhs.get('k') == 'mem' and lhs.get('field') == 'value' and lhs.get('rec') == 'conf_node_string'):
+                continue
+            base = sx(lhs.get('base'))
+            if is_var(lhs.get('base')) and lhs['base']['name'].startswith('source'):
+                continue        # the scratch node gives its text away; it is freed with the scratch tree
+
+            def settles(t, base=base):
+                e2 = t.ev
+                if e2['k'] == 'call' and e2.get('callee') == refresh and e2['args'] and sx(e2['args'][0]) == base:
+                    return True
+                l2 = e2.get('lhs') or {}
+                if e2['k'] == 'store' and l2.get('k') == 'mem' and l2.get('field') == 'p_string' and sx(l2.get('base', {}).get('base')) == base:
+                    return True
+                return False
+            n += 1
+            R.ob(rule, f.path_avoiding(s, settles) is None, s, 'in %s the text given to %s is also what the node remembers (refresh call or store to parsed.p_string) before the function returns' % (f.name, base),
+                 key='alias-established:%s' % f.name)
+    R.floor(rule, 2, 'stores of a text into a string node')
+
 def zero_defaults(P, R, rule='C15.TAB.2'):
     """Nodes made by the parser are zero-filled and never given a subtype (only registration assigns one): the
     enumerator that means "plain text" must therefore be 0, or a setting nobody registered is parsed as a boolean /
@@ -652,6 +685,7 @@ def run(P, R, tier):
     merge_details(P, R)
     capacities(P, R)
     zero_defaults(P, R)
+    alias_established(P, R)
     rules.vector_walks(P, R, 'C15.BND.2', units=('src/config.c', 'src/common.c'))
     R.floor('C15.BND.2', 3, 'vector walks in the configuration code')
     exhaustive(P, R)
